@@ -233,12 +233,12 @@ Section DiskProofs.
   Variable dec_env : bytes -> option envelope.
   Variable enc_meta : meta -> bytes.
   Variable dec_meta : bytes -> option meta.
-  Variable chunk : nat.
+  Variable chunk : wcfg.
   Hypothesis dec_enc_env : forall e, dec_env (enc_env e) = Some e.
   Hypothesis dec_enc_meta : forall m, dec_meta (enc_meta m) = Some m.
   Hypothesis enc_env_nonempty : forall e, enc_env e <> [].
   Hypothesis enc_meta_nonempty : forall m, enc_meta m <> [].
-  Hypothesis chunk_pos : chunk <> O.
+  Hypothesis chunk_pos : wcfg_ok chunk.
 
   Notation dprog_of := (disk_prog enc_env dec_env enc_meta dec_meta chunk).
   Notation write_loop := (write_loop chunk).
@@ -263,19 +263,31 @@ Section DiskProofs.
     Proof.
       intros Hp HI HK. induction fuel as [|f IH]; intros rest sofar off s1 Hag Hget Hoff Hdata Hne Hlen.
       { destruct rest; [congruence|cbn [length] in Hlen; lia]. }
-      destruct rest as [|x r]; [congruence|]. destruct chunk as [|c] eqn:Ec; [congruence|].
-      cbn [Disk.write_loop]. rewrite firstn_cons.
+      destruct rest as [|x r]; [congruence|]. destruct chunk_pos as [Hc Hnf].
+      destruct (w_chunk chunk) as [|c] eqn:Ec; [congruence|].
+      cbn [Disk.write_loop]. rewrite Ec, firstn_cons. unfold written.
+      destruct (w_fault chunk t off (length (x :: firstn c r))) as [w0|] eqn:Ew; [|exfalso; eapply Hnf; exact Ew].
+      set (n := length (x :: firstn c r)) in *.
+      set (w := if (Nat.ltb 0 w0 && Nat.ltb w0 n)%bool then w0 else n).
+      assert (Hn : (1 <= n <= length (x :: r))%nat).
+      { unfold n. cbn [length]. rewrite firstn_length. lia. }
+      assert (Hw : (1 <= w <= n)%nat).
+      { unfold w. destruct (Nat.ltb 0 w0 && Nat.ltb w0 n)%bool eqn:E; [|lia].
+        apply andb_prop in E as [E1 E2]. apply Nat.ltb_lt in E1. apply Nat.ltb_lt in E2. lia. }
+      destruct w as [|w']; [lia|]. rewrite firstn_cons.
       apply ok_do; [apply HI; exact Hag|].
       intros s' a E. cbn [dexec] in E. rewrite Hget in E. inversion E; subst s' a; clear E.
       subst off. rewrite pwrite_end.
-      set (piece := x :: firstn c r) in *.
+      set (piece := x :: firstn w' r) in *.
       set (s2 := aset path_eqb s1 (PTmp t) (sofar ++ piece)).
       assert (Hag2 : agree_but [PTmp t] s s2).
       { eapply agree_but_trans; [exact Hag|]. apply (agree_but_fset [PTmp t] s1). left; reflexivity. }
       assert (Hget2 : fget s2 (PTmp t) = Some (sofar ++ piece)) by apply fget_fset_same.
-      assert (Hsplit : piece ++ skipn (S c) (x :: r) = x :: r).
+      assert (Hsplit : piece ++ skipn (S w') (x :: r) = x :: r).
       { unfold piece. rewrite <- firstn_cons. apply firstn_skipn. }
-      destruct (skipn (S c) (x :: r)) as [|y r'] eqn:Er.
+      assert (Hpl : length piece = S w').
+      { unfold piece. rewrite <- firstn_cons, firstn_length. lia. }
+      destruct (skipn (S w') (x :: r)) as [|y r'] eqn:Er.
       - apply ok_do; [apply HI; exact Hag2|].
         intros s' a E. cbn [dexec] in E. rewrite Hget2 in E. inversion E; subst s' a; clear E.
         rewrite app_nil_r in Hsplit.
@@ -295,7 +307,7 @@ Section DiskProofs.
         { rewrite <- Er, skipn_length. cbn [length] in *. lia. }
         destruct f as [|f']; [cbn [length] in Hl; lia|].
         apply (IH (y :: r') (sofar ++ piece)); try assumption.
-        + rewrite app_length. lia.
+        + rewrite app_length, Hpl. lia.
         + rewrite <- app_assoc, Hsplit. exact Hdata.
         + discriminate.
     Qed.
